@@ -1,6 +1,6 @@
 from ufo2ft.constants import COLOR_LAYER_MAPPING_KEY, COLOR_LAYERS_KEY
 from ufo2ft.filters import BaseFilter
-from ufo2ft.util import _GlyphSet
+from ufo2ft.util import _copyGlyph, _GlyphSet
 
 
 class ExplodeColorLayerGlyphsFilter(BaseFilter):
@@ -30,7 +30,6 @@ class ExplodeColorLayerGlyphsFilter(BaseFilter):
         return layer
 
     def _copyGlyph(self, layerGlyphSet, glyphSet, glyphName, layerName):
-        layerGlyph = layerGlyphSet[glyphName]
         layerGlyphName = f"{glyphName}.{layerName}"
         if layerGlyphName in glyphSet:
             if layerGlyphName in self.context.colorLayerGlyphNames:
@@ -42,6 +41,10 @@ class ExplodeColorLayerGlyphsFilter(BaseFilter):
                 f"a glyph named {layerGlyphName} already exists, "
                 "conflicting with a requested color layer glyph."
             )
+        # work on a copy: the layer's glyph belongs to the source font, whereas the
+        # new alternate gets its codepoints stripped and its components renamed
+        # below, and is then edited by all the filters that follow
+        layerGlyph = _copyGlyph(layerGlyphSet[glyphName])
         for component in layerGlyph.components:
             baseLayerGlyphName = self._copyGlyph(
                 layerGlyphSet, glyphSet, component.baseGlyph, layerName
